@@ -355,7 +355,11 @@ async fn graceful_shutdown<S>(
 
 	if let Ok(Shutdown::Stopped) = result {
 		let graceful_shutdown = pending_calls.for_each(|_| async {});
-		let disconnect = ws_stream.try_for_each(|_| async { Ok(()) });
+		// NOTE: a message that is too large is answered and skipped while the connection is served and
+		// it doesn't end the connection here either, the peer is still there and waits for its answers.
+		let disconnect = ws_stream
+			.filter(|item| future::ready(!matches!(item, Err(SokettoError::MessageTooLarge { .. }))))
+			.try_for_each(|_| async { Ok(()) });
 
 		tokio::select! {
 			_ = graceful_shutdown => {}
